@@ -13,7 +13,7 @@ import (
 var c01Decl = &GenCfg{Depth: 3, Fanout: 3, MaxOpts: 4, MaxGroups: 2, NestGroups: 2, Kinds: AllKinds, Pos: true, Ns: true,
 	Req: 4, Choices: true, Defaults: true, OptArg: true, Hidden: true, Desc: true, Plain: true, Initial: true, Bases: true,
 	Unquote: true, Aliases: true, SubOpt: 40, NonASCII: true, NsDelims: []string{"-", "::", ""}, InCode: 10, NoFlag: true, ViaAdd: 5, StaticTwins: true,
-	ParserOpts: []flags.Options{flags.HelpFlag, flags.PassDoubleDash, flags.PassAfterNonOption}}
+	ParserOpts: []flags.Options{flags.HelpFlag, flags.PassDoubleDash, flags.PassAfterNonOption, flags.IgnoreUnknown}}
 
 var c01Argv = &ArgvCfg{MaxItems: 4, WOpt: 40, WCluster: 12, WCmd: 2, WPlain: 4, WTerm: 1, WUnknown: 0, WJunk: 1, WRepeat: 40, BadVal: 2, Quote: 12}
 
